@@ -747,7 +747,7 @@ func c47HexList(xs []string) []string {
 
 // famC47 drives stateless validation / parsers / decoders under recover().
 func famC47(r *hx.Rng, o *hx.Out) {
-	q := hx.N(1, 20)
+	q := hx.N(1, 10)
 
 	// ---- 24-host validators
 	vals := []func(string) error{host.ClientIdentifierValidator, host.ConnectionIdentifierValidator, host.ChannelIdentifierValidator, host.PortIdentifierValidator}
